@@ -20,6 +20,7 @@ from .keccak import keccak256
 M256 = (1 << 256) - 1
 MAX_MEMORY = 1 << 20
 MAX_DEPTH = 1024
+GAS_SENTINEL = 0x6761735F6F7061717565  # what GAS pushes; see opaque handling
 
 
 class Halt(Exception):
@@ -127,6 +128,7 @@ class RefEVM:
         self.max_stack = max_stack
         self.steps = 0
         self.opaque_used: list[str] = []
+        self.gas_pending = 0
         self._jd_cache: dict[bytes, set[int]] = {}
         self.created: list[int] = []
 
@@ -147,6 +149,8 @@ class RefEVM:
         self._exec(fr, code)
         if fr.error is not None:
             self.w.restore(snap)
+        if self.gas_pending:
+            self.opaque_used.append("GAS")
         return fr
 
     # ------------------------------------------------------------------ interpreter
@@ -475,8 +479,9 @@ class RefEVM:
             elif op == 0x59:
                 push(((hw[0] + 31) // 32) * 32 if "msize_write_only" in self.quirks else len(mem))
             elif op == 0x5A:
-                self.opaque_used.append("GAS")
-                push(0)
+                # the value is opaque unless it is only consumed as the (ignored) gas argument of a call
+                self.gas_pending += 1
+                push(GAS_SENTINEL)
             elif op == 0x5B:
                 pass
             elif op == 0x5C:
@@ -505,7 +510,8 @@ class RefEVM:
                     raise Halt("oog")
                 fr.trace.append(("log", this, tuple(topics), mread(off, size)))
             elif op in (0xF1, 0xF2, 0xF4, 0xFA):
-                pop()  # gas
+                if pop() == GAS_SENTINEL and self.gas_pending:  # gas
+                    self.gas_pending -= 1
                 to = pop() & ((1 << 160) - 1)
                 value = pop() if op in (0xF1, 0xF2) else 0
                 aoff, asz, roff, rsz = pop(), pop(), pop(), pop()
